@@ -149,6 +149,13 @@ class ConstructPipeline(RewritePattern):
                 for operand in operation.operands:
                     if not isinstance(operand.type, MemRefType) and op.body.block.is_ancestor(operand.owner):
                         return
+                # neither is anything the body of a kernel uses directly from the loop body
+                for nested in operation.walk():
+                    for operand in nested.operands:
+                        if nested is not operation and op.body.block.is_ancestor(operand.owner):
+                            owner = operand.owner if isinstance(operand.owner, Operation) else operand.owner.parent_op()
+                            if owner is None or not operation.is_ancestor(owner):
+                                return
 
         # buffers are told apart by their SSA value: two different values that name the same memory (views or casts
         # of one allocation, taken outside of the loop or among the index operations) would not be double buffered
